@@ -11,6 +11,9 @@ typedef Goldilocks::Element E;
 static void do_lane(vh::Out &o, long long ci, const std::vector<std::string> &t)
 {
     const std::string &k = t[1];
+    // aliasing mode of the register arguments: n = three distinct registers, ca = output register is operand a,
+    // cb = output register is operand b, all = one register for everything (b := a)
+    std::string al = t[0].size() > 5 ? t[0].substr(5) : "n";
     bool is512 = k.find("512") != std::string::npos;
     int L = is512 ? 8 : 4;
     alignas(64) uint64_t a[8] = {0}, b[8] = {0}, r[8] = {0}, r2[8] = {0};
@@ -19,6 +22,9 @@ static void do_lane(vh::Out &o, long long ci, const std::vector<std::string> &t)
         a[i] = vh::parse_u64(t[2 + 2 * i]);
         b[i] = vh::parse_u64(t[3 + 2 * i]);
     }
+    if (al == "all")
+        for (int i = 0; i < L; i++)
+            b[i] = a[i];
     bool two = false;
     if (!is512)
     {
@@ -34,22 +40,36 @@ static void do_lane(vh::Out &o, long long ci, const std::vector<std::string> &t)
             Goldilocks::set_avx(A, E{a[0]}, E{a[1]}, E{a[2]}, E{a[3]});
             Goldilocks::load_avx(B, (E *)b);
         }
-        if (k == "toCanonical_avx") Goldilocks::toCanonical_avx(R, A);
-        else if (k == "toCanonical_avx_s") Goldilocks::toCanonical_avx_s(R, A);
-        else if (k == "shift_avx") Goldilocks::shift_avx(R, A);
-        else if (k == "add_avx") Goldilocks::add_avx(R, A, B);
-        else if (k == "add_avx_a_sc") Goldilocks::add_avx_a_sc(R, A, B);
-        else if (k == "add_avx_s_b_small") Goldilocks::add_avx_s_b_small(R, A, B);
-        else if (k == "add_avx_b_small") Goldilocks::add_avx_b_small(R, A, B);
-        else if (k == "sub_avx") Goldilocks::sub_avx(R, A, B);
-        else if (k == "sub_avx_s_b_small") Goldilocks::sub_avx_s_b_small(R, A, B);
-        else if (k == "mult_avx") Goldilocks::mult_avx(R, A, B);
-        else if (k == "mult_avx_8") Goldilocks::mult_avx_8(R, A, B);
+#define BIN2(FN)                                  \
+    do                                            \
+    {                                             \
+        if (al == "ca") { FN(A, A, B); R = A; }   \
+        else if (al == "cb") { FN(B, A, B); R = B; } \
+        else if (al == "all") { FN(A, A, A); R = A; } \
+        else FN(R, A, B);                         \
+    } while (0)
+#define UN2(FN)                                  \
+    do                                           \
+    {                                            \
+        if (al == "ca" || al == "all") { FN(A, A); R = A; } \
+        else FN(R, A);                           \
+    } while (0)
+        if (k == "toCanonical_avx") UN2(Goldilocks::toCanonical_avx);
+        else if (k == "toCanonical_avx_s") UN2(Goldilocks::toCanonical_avx_s);
+        else if (k == "shift_avx") UN2(Goldilocks::shift_avx);
+        else if (k == "add_avx") BIN2(Goldilocks::add_avx);
+        else if (k == "add_avx_a_sc") BIN2(Goldilocks::add_avx_a_sc);
+        else if (k == "add_avx_s_b_small") BIN2(Goldilocks::add_avx_s_b_small);
+        else if (k == "add_avx_b_small") BIN2(Goldilocks::add_avx_b_small);
+        else if (k == "sub_avx") BIN2(Goldilocks::sub_avx);
+        else if (k == "sub_avx_s_b_small") BIN2(Goldilocks::sub_avx_s_b_small);
+        else if (k == "mult_avx") BIN2(Goldilocks::mult_avx);
+        else if (k == "mult_avx_8") BIN2(Goldilocks::mult_avx_8);
         else if (k == "mult_avx_128") { Goldilocks::mult_avx_128(R, R2, A, B); two = true; }
         else if (k == "mult_avx_72") { Goldilocks::mult_avx_72(R, R2, A, B); two = true; }
-        else if (k == "reduce_avx_128_64") Goldilocks::reduce_avx_128_64(R, A, B);
-        else if (k == "reduce_avx_96_64") Goldilocks::reduce_avx_96_64(R, A, B);
-        else if (k == "square_avx") Goldilocks::square_avx(R, A);
+        else if (k == "reduce_avx_128_64") BIN2(Goldilocks::reduce_avx_128_64);
+        else if (k == "reduce_avx_96_64") BIN2(Goldilocks::reduce_avx_96_64);
+        else if (k == "square_avx") UN2(Goldilocks::square_avx);
         else if (k == "square_avx_128") { Goldilocks::square_avx_128(R, R2, A); two = true; }
         else { fprintf(stderr, "unknown kernel %s\n", k.c_str()); exit(2); }
         if (ci % 2)
@@ -72,18 +92,18 @@ static void do_lane(vh::Out &o, long long ci, const std::vector<std::string> &t)
             Goldilocks::load_avx512_a(A, (E *)a);
             Goldilocks::load_avx512(B, (E *)b);
         }
-        if (k == "toCanonical_avx512") Goldilocks::toCanonical_avx512(R, A);
-        else if (k == "add_avx512") Goldilocks::add_avx512(R, A, B);
-        else if (k == "add_avx512_b_c") Goldilocks::add_avx512_b_c(R, A, B);
-        else if (k == "sub_avx512") Goldilocks::sub_avx512(R, A, B);
-        else if (k == "sub_avx512_b_c") Goldilocks::sub_avx512_b_c(R, A, B);
-        else if (k == "mult_avx512") Goldilocks::mult_avx512(R, A, B);
-        else if (k == "mult_avx512_8") Goldilocks::mult_avx512_8(R, A, B);
+        if (k == "toCanonical_avx512") UN2(Goldilocks::toCanonical_avx512);
+        else if (k == "add_avx512") BIN2(Goldilocks::add_avx512);
+        else if (k == "add_avx512_b_c") BIN2(Goldilocks::add_avx512_b_c);
+        else if (k == "sub_avx512") BIN2(Goldilocks::sub_avx512);
+        else if (k == "sub_avx512_b_c") BIN2(Goldilocks::sub_avx512_b_c);
+        else if (k == "mult_avx512") BIN2(Goldilocks::mult_avx512);
+        else if (k == "mult_avx512_8") BIN2(Goldilocks::mult_avx512_8);
         else if (k == "mult_avx512_128") { Goldilocks::mult_avx512_128(R, R2, A, B); two = true; }
         else if (k == "mult_avx512_72") { Goldilocks::mult_avx512_72(R, R2, A, B); two = true; }
-        else if (k == "reduce_avx512_128_64") Goldilocks::reduce_avx512_128_64(R, A, B);
-        else if (k == "reduce_avx512_96_64") Goldilocks::reduce_avx512_96_64(R, A, B);
-        else if (k == "square_avx512") Goldilocks::square_avx512(R, A);
+        else if (k == "reduce_avx512_128_64") BIN2(Goldilocks::reduce_avx512_128_64);
+        else if (k == "reduce_avx512_96_64") BIN2(Goldilocks::reduce_avx512_96_64);
+        else if (k == "square_avx512") UN2(Goldilocks::square_avx512);
         else if (k == "square_avx512_128") { Goldilocks::square_avx512_128(R, R2, A); two = true; }
         else { fprintf(stderr, "unknown kernel %s\n", k.c_str()); exit(2); }
         if (ci % 2)
@@ -99,6 +119,7 @@ static void do_lane(vh::Out &o, long long ci, const std::vector<std::string> &t)
     o.begin("lane");
     o.num("ci", ci);
     o.str("k", k);
+    o.str("al", al);
     o.w64arr("a", a, L);
     o.w64arr("b", b, L);
     o.w64arr("r", r, L);
@@ -110,6 +131,7 @@ static void do_lane(vh::Out &o, long long ci, const std::vector<std::string> &t)
 static void do_mat(vh::Out &o, long long ci, const std::vector<std::string> &t)
 {
     const std::string &k = t[1];
+    bool inplace = t[0].size() > 4 && t[0].substr(4) == "ca"; // the output register is the first state register
     bool is512 = k.find("512") != std::string::npos;
     size_t ns = atoi(t[2].c_str());
     alignas(64) uint64_t s[24] = {0};
@@ -135,12 +157,12 @@ static void do_mat(vh::Out &o, long long ci, const std::vector<std::string> &t)
         Goldilocks::load_avx(a2, (E *)&s[8]);
         if (k == "dot_avx") { r[0] = Goldilocks::dot_avx(a0, a1, a2, (E *)m).fe; nr = 1; }
         else if (k == "dot_avx_a") { r[0] = Goldilocks::dot_avx_a(a0, a1, a2, (E *)m).fe; nr = 1; }
-        else if (k == "spmv_avx_4x12") { Goldilocks::spmv_avx_4x12(c, a0, a1, a2, (E *)m); Goldilocks::store_avx((E *)r, c); nr = 4; }
-        else if (k == "spmv_avx_4x12_a") { Goldilocks::spmv_avx_4x12_a(c, a0, a1, a2, (E *)m); Goldilocks::store_avx((E *)r, c); nr = 4; }
-        else if (k == "spmv_avx_4x12_8") { Goldilocks::spmv_avx_4x12_8(c, a0, a1, a2, (E *)m); Goldilocks::store_avx((E *)r, c); nr = 4; }
-        else if (k == "mmult_avx_4x12") { Goldilocks::mmult_avx_4x12(c, a0, a1, a2, (E *)m); Goldilocks::store_avx((E *)r, c); nr = 4; }
-        else if (k == "mmult_avx_4x12_a") { Goldilocks::mmult_avx_4x12_a(c, a0, a1, a2, (E *)m); Goldilocks::store_avx((E *)r, c); nr = 4; }
-        else if (k == "mmult_avx_4x12_8") { Goldilocks::mmult_avx_4x12_8(c, a0, a1, a2, (E *)m); Goldilocks::store_avx((E *)r, c); nr = 4; }
+        else if (k == "spmv_avx_4x12") { if (inplace) { Goldilocks::spmv_avx_4x12(a0, a0, a1, a2, (E *)m); c = a0; } else Goldilocks::spmv_avx_4x12(c, a0, a1, a2, (E *)m); Goldilocks::store_avx((E *)r, c); nr = 4; }
+        else if (k == "spmv_avx_4x12_a") { if (inplace) { Goldilocks::spmv_avx_4x12_a(a0, a0, a1, a2, (E *)m); c = a0; } else Goldilocks::spmv_avx_4x12_a(c, a0, a1, a2, (E *)m); Goldilocks::store_avx((E *)r, c); nr = 4; }
+        else if (k == "spmv_avx_4x12_8") { if (inplace) { Goldilocks::spmv_avx_4x12_8(a0, a0, a1, a2, (E *)m); c = a0; } else Goldilocks::spmv_avx_4x12_8(c, a0, a1, a2, (E *)m); Goldilocks::store_avx((E *)r, c); nr = 4; }
+        else if (k == "mmult_avx_4x12") { if (inplace) { Goldilocks::mmult_avx_4x12(a0, a0, a1, a2, (E *)m); c = a0; } else Goldilocks::mmult_avx_4x12(c, a0, a1, a2, (E *)m); Goldilocks::store_avx((E *)r, c); nr = 4; }
+        else if (k == "mmult_avx_4x12_a") { if (inplace) { Goldilocks::mmult_avx_4x12_a(a0, a0, a1, a2, (E *)m); c = a0; } else Goldilocks::mmult_avx_4x12_a(c, a0, a1, a2, (E *)m); Goldilocks::store_avx((E *)r, c); nr = 4; }
+        else if (k == "mmult_avx_4x12_8") { if (inplace) { Goldilocks::mmult_avx_4x12_8(a0, a0, a1, a2, (E *)m); c = a0; } else Goldilocks::mmult_avx_4x12_8(c, a0, a1, a2, (E *)m); Goldilocks::store_avx((E *)r, c); nr = 4; }
         else if (k == "mmult_avx" || k == "mmult_avx_a" || k == "mmult_avx_8")
         {
             if (k == "mmult_avx") Goldilocks::mmult_avx(a0, a1, a2, (E *)m);
@@ -161,10 +183,10 @@ static void do_mat(vh::Out &o, long long ci, const std::vector<std::string> &t)
         Goldilocks::load_avx512(a1, (E *)&s[8]);
         Goldilocks::load_avx512(a2, (E *)&s[16]);
         if (k == "dot_avx512") { E d[2]; Goldilocks::dot_avx512(d, a0, a1, a2, (E *)m); r[0] = d[0].fe; r[1] = d[1].fe; nr = 2; }
-        else if (k == "spmv_avx512_4x12") { Goldilocks::spmv_avx512_4x12(c, a0, a1, a2, (E *)m); Goldilocks::store_avx512((E *)r, c); nr = 8; }
-        else if (k == "spmv_avx512_4x12_8") { Goldilocks::spmv_avx512_4x12_8(c, a0, a1, a2, (E *)m); Goldilocks::store_avx512((E *)r, c); nr = 8; }
-        else if (k == "mmult_avx512_4x12") { Goldilocks::mmult_avx512_4x12(c, a0, a1, a2, (E *)m); Goldilocks::store_avx512((E *)r, c); nr = 8; }
-        else if (k == "mmult_avx512_4x12_8") { Goldilocks::mmult_avx512_4x12_8(c, a0, a1, a2, (E *)m); Goldilocks::store_avx512((E *)r, c); nr = 8; }
+        else if (k == "spmv_avx512_4x12") { if (inplace) { Goldilocks::spmv_avx512_4x12(a0, a0, a1, a2, (E *)m); c = a0; } else Goldilocks::spmv_avx512_4x12(c, a0, a1, a2, (E *)m); Goldilocks::store_avx512((E *)r, c); nr = 8; }
+        else if (k == "spmv_avx512_4x12_8") { if (inplace) { Goldilocks::spmv_avx512_4x12_8(a0, a0, a1, a2, (E *)m); c = a0; } else Goldilocks::spmv_avx512_4x12_8(c, a0, a1, a2, (E *)m); Goldilocks::store_avx512((E *)r, c); nr = 8; }
+        else if (k == "mmult_avx512_4x12") { if (inplace) { Goldilocks::mmult_avx512_4x12(a0, a0, a1, a2, (E *)m); c = a0; } else Goldilocks::mmult_avx512_4x12(c, a0, a1, a2, (E *)m); Goldilocks::store_avx512((E *)r, c); nr = 8; }
+        else if (k == "mmult_avx512_4x12_8") { if (inplace) { Goldilocks::mmult_avx512_4x12_8(a0, a0, a1, a2, (E *)m); c = a0; } else Goldilocks::mmult_avx512_4x12_8(c, a0, a1, a2, (E *)m); Goldilocks::store_avx512((E *)r, c); nr = 8; }
         else if (k == "mmult_avx512" || k == "mmult_avx512_8")
         {
             if (k == "mmult_avx512") Goldilocks::mmult_avx512(a0, a1, a2, (E *)m);
@@ -183,6 +205,7 @@ static void do_mat(vh::Out &o, long long ci, const std::vector<std::string> &t)
     o.begin("mat");
     o.num("ci", ci);
     o.str("k", k);
+    o.boolean("inplace", inplace);
     o.w64arr("s", s, ns);
     o.w64arr("m", m, nm);
     o.w64arr("r", r, nr);
@@ -199,9 +222,9 @@ int main(int argc, char **argv)
     for (auto &t : cases)
     {
         ci++;
-        if (t[0] == "lane")
+        if (t[0].compare(0, 4, "lane") == 0)
             do_lane(o, ci, t);
-        else if (t[0] == "mat")
+        else if (t[0].compare(0, 3, "mat") == 0)
             do_mat(o, ci, t);
     }
     return 0;
